@@ -182,7 +182,7 @@ NOT_APPLICABLE = {
     "C11": "check not built yet (string profile of the interpreter)",
     "C12": "file system / process-kill / rustc-subprocess protocol: a solver harness would verify hand-written stubs, not the code (DESIGN.md §6)",
     "C13": "negation is dependence on ambient nondeterminism (ASLR, hash seeds, thread schedules) which a symbolic semantics does not contain (DESIGN.md §6)",
-    "C14": "pointer-rich Rc tree: Kani/CBMC produced no verdict for a single insert on 1-5 nodes within 15 min / 10 GB; a source interpreter for map.rs is out of reach (DESIGN.md §2.1, §6)",
+    "C14": "pointer-rich Rc tree: Kani/CBMC produced no verdict for a single insert on 1-5 nodes within 15 min / 10 GB (DESIGN.md §2.1); a value-semantics interpretation of map.rs by the own executor was probed as well (concrete insert sequences run, but symbolic trees fail on mutation through references into merged node values: the executor's object model is built for flat structs of containers) -- neither engine of this family reaches the balanced tree within a useful bound (DESIGN.md §6)",
     "C15": "check not built yet",
     "C16": "check not built yet",
     "C17": "check not built yet",
